@@ -104,6 +104,8 @@ def valid_pred(pred):
     if not isinstance(pred, dict):
         return False
     kind = pred.get("t")
+    if "falsy" in pred and pred["falsy"] is not True:
+        return False
     if kind == "const":
         return isinstance(pred.get("v"), bool)
     if kind == "startswith":
@@ -123,13 +125,35 @@ def valid_case(case):
             valid_pred(op.get("pred")) and isinstance(op.get("name"), str)
         ):
             return False
-        if op.get("op") in ("make",) and not isinstance(op.get("name"), str):
+        if op.get("op") in ("make", "decorator") and not isinstance(op.get("name"), str):
+            return False
+        if op.get("op") == "apply" and not valid_pred(op.get("pred")):
             return False
     return True
 
 
+class _FalsyChecker:
+    """A perfectly good checker whose truth value is False (an allow-list
+    object that is empty, a combinator with __len__ ...): whether a name is
+    registered must not be decided by bool(checker)."""
+
+    def __init__(self, pred):
+        self.pred = pred
+
+    def __call__(self, value):
+        return evaluate(self.pred, value)
+
+    def __bool__(self):
+        return False
+
+    def __len__(self):
+        return 0
+
+
 def make_pred(pred):
     pred = copy.deepcopy(pred)
+    if pred.get("falsy"):
+        return _FalsyChecker(pred)
 
     def checker(value):
         return evaluate(pred, value)
@@ -138,6 +162,13 @@ def make_pred(pred):
 
 
 def gen_pred(rng):
+    pred = _gen_pred(rng)
+    if rng.random() < 0.08:
+        pred["falsy"] = True  # registered through a callable object with bool() == False
+    return pred
+
+
+def _gen_pred(rng):
     roll = rng.random()
     if roll < 0.3:
         return {"t": "const", "v": rng.random() < 0.5}
@@ -285,9 +316,22 @@ def gen_case(rng):
     p_builtin = rng.choice([0.1, 0.25, 0.5])
     el_name = {op["eid"]: op["name"] for op in ops}
     validated = []  # (eid, value) pairs already validated
+    n_deco = 0
+    p_werror = rng.choice([0.0, 0.0, 0.1, 0.3])
     for _ in range(n_ops):
         roll = rng.random()
-        if roll < 0.22:
+        if roll < 0.05:
+            # decorators obtained now and applied later, in another order
+            picked = [rng.choice(names) for _ in range(rng.randint(1, 3))]
+            dids = []
+            for name in picked:
+                n_deco += 1
+                ops.append({"op": "decorator", "did": n_deco, "name": name})
+                dids.append(n_deco)
+            rng.shuffle(dids)
+            for did in dids:
+                ops.append({"op": "apply", "did": did, "pred": gen_pred(rng)})
+        elif roll < 0.22:
             name = rng.choice(names)
             ops.append({"op": "register", "name": name, "pred": gen_pred(rng)})
             # faults land inside in-flight state: re-validate strings that were
@@ -310,7 +354,10 @@ def gen_case(rng):
                 value = rng.choice(strings)  # re-validate the same strings
             else:
                 value = gen_string(rng)
-            ops.append({"op": "validate", "eid": eid, "value": value})
+            vop = {"op": "validate", "eid": eid, "value": value}
+            if rng.random() < p_werror:
+                vop["wmode"] = "error"
+            ops.append(vop)
             if isinstance(value, str):
                 validated.append((eid, value))
         else:
@@ -391,6 +438,7 @@ def exec_case(case, log, stats):
 def _exec(case, log, stats, saved):
     model = {name: {"t": "builtin"} for name in saved}
     elements = {}
+    decorators = {}
     seen = {}  # (name, string) -> last verdict, to count verdict-changing re-registrations
     flips = unregistered = nonstrings = 0
     for idx, op in enumerate(case["ops"]):
@@ -399,6 +447,25 @@ def _exec(case, log, stats, saved):
             elements[op["eid"]] = (op["kind"], op["name"], make_element(op["kind"], op["name"]))
             log.add(idx, "make", op["kind"], op["name"])
             stats.inc("make:" + op["kind"])
+            continue
+        if kind == "decorator":
+            # obtain the decorator now, apply it later (possibly after other
+            # registrations): `d = format_checker.register(name)` ... `d(fn)`
+            decorators[op["did"]] = (op["name"], format_checker.register(op["name"]))
+            log.add(idx, "decorator", op["name"])
+            stats.inc("decorators_obtained")
+            continue
+        if kind == "apply":
+            if op["did"] not in decorators:
+                log.add(idx, "apply_skipped")
+                continue
+            name, deco = decorators.pop(op["did"])
+            if name in model:
+                stats.inc("re_registrations")
+            deco(make_pred(op["pred"]))
+            model[name] = op["pred"]
+            log.add(idx, "apply", name, op["pred"])
+            stats.inc("deferred_registrations_applied")
             continue
         if kind == "register":
             if op["name"] in model:
@@ -433,11 +500,34 @@ def _exec(case, log, stats, saved):
         ekind, name, element = elements[op["eid"]]
         inner = op["value"]
         value = wrap(ekind, copy.deepcopy(inner))
-        with warnings.catch_warnings(record=True) as caught:
-            warnings.simplefilter("always")
-            verdict, result, _ = attempt(element, value)
-        warned = any(issubclass(w.category, RuntimeWarning) for w in caught)
-        log.add(idx, "validate", ekind, name, inner, verdict, warned)
+        if op.get("wmode") == "error":
+            # the caller runs with warnings escalated to errors (-W error,
+            # pytest filterwarnings=error): the "warning" of an unregistered
+            # format then surfaces as the RuntimeWarning exception itself -
+            # still a warning produced and still not a rejection
+            with warnings.catch_warnings():
+                warnings.simplefilter("error")
+                verdict, result, _ = attempt(element, value)
+            stats.inc("validate_with_warnings_as_errors")
+            log.add(idx, "validate_werror", ekind, name, inner, verdict)
+            if isinstance(inner, str) and name not in model:
+                stats.inc("unregistered_format_calls")
+                if verdict != "escape:RuntimeWarning":
+                    return {
+                        "invariant": "unregistered_format_no_warning"
+                        if verdict == "accept"
+                        else "unregistered_format_rejects",
+                        "op_index": idx,
+                        "detail": {"name": name, "value": inner, "verdict": verdict, "warnings": "error"},
+                    }
+                continue
+            warned = False
+        else:
+            with warnings.catch_warnings(record=True) as caught:
+                warnings.simplefilter("always")
+                verdict, result, _ = attempt(element, value)
+            warned = any(issubclass(w.category, RuntimeWarning) for w in caught)
+            log.add(idx, "validate", ekind, name, inner, verdict, warned)
         stats.inc("validate")
         if not isinstance(inner, str):
             nonstrings += 1
